@@ -103,7 +103,10 @@ func IsHex(c byte) bool         { return strings.IndexByte("0123456789abcdefABCD
 func IsSpaceTabEOL(c byte) bool { return c == ' ' || c == '\t' || c == '\n' || c == '\r' }
 
 // URIOutputOK: only unreserved / reserved characters and %XX escapes.
-var uriOut = regexp.MustCompile(`^(?:[A-Za-z0-9;/?:@&=+$,\-_.!~*'()#]|%[0-9A-Fa-f]{2})*$`)
+// (square brackets are reserved characters in RFC 3986; the library happens
+// to encode them, which the comparison with the reference normaliser pins, not
+// this predicate)
+var uriOut = regexp.MustCompile(`^(?:[A-Za-z0-9;/?:@&=+$,\-_.!~*'()#\[\]]|%[0-9A-Fa-f]{2})*$`)
 
 func URIOutputOK(s string) bool { return uriOut.MatchString(s) }
 
